@@ -1,1 +1,8 @@
-"""Further extractors (registered into extract.EXTRACTORS on import)."""
+"""Imports every harness/extract_*.py module (each registers its extractors into extract.EXTRACTORS)."""
+import importlib
+import pkgutil
+from pathlib import Path
+
+for _m in pkgutil.iter_modules([str(Path(__file__).parent)]):
+    if _m.name.startswith("extract_") and _m.name not in ("extract_more", "extract_main"):
+        importlib.import_module(f"harness.{_m.name}")
